@@ -78,6 +78,8 @@ macro_rules! dispatch {
             "C07" => $f(&props::c07::C07 $(, $arg)*),
             "C06" => $f(&props::c06::C06 $(, $arg)*),
             "C13" => $f(&props::c13::C13 $(, $arg)*),
+            "C19" => $f(&props::c19::C19 $(, $arg)*),
+            "C12" => $f(&props::c12::C12 $(, $arg)*),
             other => {
                 eprintln!("unknown property {}", other);
                 3
